@@ -827,14 +827,33 @@ Proof.
 Qed.
 
 (* ------------------------------------------------------------------ both loops *)
+(* What the walk-through needs of the key list: a dict has distinct keys, and with the isotropic flag the
+   mirror image of a key must be a key (otherwise `rule_table[s[::-1]] = ...` would ADD an entry).
+   Nothing about the ORDER of the keys. *)
+Definition closed_keys (iso : bool) (t : table) : Prop :=
+  NoDup (map fst t) /\ (iso = true -> forall s, In s (map fst t) -> In (rev s) (map fst t)).
+
+(* the key SET is the full set of k-colour neighbourhood strings of length n, in any order *)
+Definition full_keys (k n : nat) (t : table) : Prop :=
+  NoDup (map fst t) /\ (forall s, In s (map fst t) <-> digit_string k n s).
+
+Lemma full_keys_closed : forall k n iso t, full_keys k n t -> closed_keys iso t.
+Proof.
+  intros k n iso t [ND H]. split; auto. intros _ s Hs. apply H. apply digit_string_rev. apply H; auto.
+Qed.
+
+Lemma canonical_full_keys : forall k n (t : table), 2 <= k -> 1 <= n -> map fst t = states k n -> full_keys k n t.
+Proof.
+  intros k n t Hk Hn H. split; rewrite H; [apply states_NoDup; auto | intros s; apply states_in; auto].
+Qed.
+
 Section Walk.
   Variables (k r : nat) (q : Z) (lam : Q) (sq iso : bool) (t0 : table).
   Hypothesis Hk : 2 <= k.
-  Local Notation n := (2 * r + 1).
-  Hypothesis WF0 : map fst t0 = states k n.
+  Hypothesis WF0 : closed_keys iso t0.
 
   Definition Pcommon (t : table) : Prop :=
-    map fst t = states k n /\
+    map fst t = map fst t0 /\
     (Forall (in_range k) (map snd t0) -> in_range k q -> Forall (in_range k) (map snd t)) /\
     (sq = true -> SQ t0 -> SQ t) /\
     (iso = true -> ISO t0 -> ISO t).
@@ -850,20 +869,20 @@ Section Walk.
   Lemma Pcommon_init : Pcommon t0.
   Proof. split; auto. Qed.
 
-  Lemma keys_NoDup : forall t : table, map fst t = states k n -> NoDup (map fst t).
-  Proof. intros t H. rewrite H. apply states_NoDup; lia. Qed.
+  Lemma keys_NoDup : forall t : table, map fst t = map fst t0 -> NoDup (map fst t).
+  Proof. intros t H. rewrite H. exact (proj1 WF0). Qed.
 
   Lemma Pcommon_perturb : forall t s v, Pcommon t -> In s (map fst t) -> (sq = true -> uniform s = false) ->
     (in_range k q -> in_range k v) -> Pcommon (perturb iso s v t).
   Proof.
     intros t s v (Hkeys & Hr & Hsq & Hiso) Hs Hu Hv.
-    assert (Hrev : In (rev s) (map fst t)).
-    { rewrite Hkeys in *. apply states_rev; auto; lia. }
+    assert (Hrev : iso = true -> In (rev s) (map fst t)).
+    { intros E. rewrite Hkeys in *. apply (proj2 WF0); auto. }
     split; [|split; [|split]].
     - rewrite keys_perturb; auto.
     - intros H1 H2. apply range_perturb; auto.
     - intros E H1. apply SQ_perturb; auto.
-    - intros E H1. rewrite E. apply ISO_perturb; auto.
+    - intros E H1. specialize (Hrev E). rewrite E. apply ISO_perturb; auto.
   Qed.
 
   Lemma Pdec_step : forall t a cs t' cs',
@@ -892,7 +911,7 @@ Section Walk.
   Qed.
 
   Lemma P_len : forall t, Pcommon t -> length t = length t0.
-  Proof. intros t (H & _). rewrite <- (map_length fst t), H, <- WF0, map_length. reflexivity. Qed.
+  Proof. intros t (H & _). rewrite <- (map_length fst t), H, map_length. reflexivity. Qed.
 
   (* outcome of the "reduce lambda" loop *)
   Lemma dec_loop_spec : forall cs, exists t' cs',
@@ -942,9 +961,9 @@ Section Walk.
 End Walk.
 
 (* ------------------------------------------------------------------ the walk-through theorems *)
-Lemma twt_spec : forall t lam k r q sq iso cs, 2 <= k -> map fst t = states k (2 * r + 1) ->
+Lemma twt_spec : forall t lam k r q sq iso cs, 2 <= k -> closed_keys iso t ->
   exists t', table_walk_through t lam k r q sq iso cs = Ok (Some (t', actual_lambda k r q t')) /\
-    Pcommon k r q sq iso t t' /\
+    Pcommon k q sq iso t t' /\
     ((actual_lambda k r q t == lam)%Q -> t' = t) /\
     ((lam < actual_lambda k r q t)%Q ->
        qcount q t <= qcount q t' /\
@@ -958,7 +977,7 @@ Proof.
   intros t lam k r q sq iso cs Hk WF. unfold table_walk_through.
   destruct (k =? 0) eqn:E0; [apply Nat.eqb_eq in E0; lia|].
   destruct (actual_lambda k r q t ?= lam)%Q eqn:C.
-  - exists t. split; [reflexivity|]. split; [apply Pcommon_init; auto|]. split; [auto|]. split.
+  - exists t. split; [reflexivity|]. split; [apply Pcommon_init|]. split; [auto|]. split.
     + intros H. apply Qgt_alt in H. unfold Qcompare in *. congruence.
     + intros H. apply Qlt_alt in H. unfold Qcompare in *. congruence.
   - destruct (inc_loop_spec k r q lam sq iso t Hk WF cs) as (t' & cs' & E & HC & Hq & Hstop & Hlast).
@@ -973,9 +992,9 @@ Proof.
     + intros H. apply Qlt_alt in H. unfold Qcompare in *. congruence.
 Qed.
 
-Lemma twt_result : forall t lam k r q sq iso cs t' l', 2 <= k -> map fst t = states k (2 * r + 1) ->
+Lemma twt_result : forall t lam k r q sq iso cs t' l', 2 <= k -> closed_keys iso t ->
   table_walk_through t lam k r q sq iso cs = Ok (Some (t', l')) ->
-  l' = actual_lambda k r q t' /\ Pcommon k r q sq iso t t' /\
+  l' = actual_lambda k r q t' /\ Pcommon k q sq iso t t' /\
     ((actual_lambda k r q t == lam)%Q -> t' = t) /\
     ((lam < actual_lambda k r q t)%Q ->
        qcount q t <= qcount q t' /\
@@ -992,14 +1011,14 @@ Proof.
 Qed.
 
 (* never out of fuel, never an exception: the loop's own `attempts` bound is sufficient fuel *)
-Lemma twt_terminates : forall t lam k r q sq iso cs, 2 <= k -> map fst t = states k (2 * r + 1) ->
+Lemma twt_terminates : forall t lam k r q sq iso cs, 2 <= k -> closed_keys iso t ->
   exists t' l', table_walk_through t lam k r q sq iso cs = Ok (Some (t', l')).
 Proof.
   intros t lam k r q sq iso cs Hk WF.
   destruct (twt_spec t lam k r q sq iso cs Hk WF) as (t1 & E & _). eauto.
 Qed.
 
-Lemma twt_preserves : forall t lam k r q sq iso cs t' l', 2 <= k -> map fst t = states k (2 * r + 1) ->
+Lemma twt_preserves : forall t lam k r q sq iso cs t' l', 2 <= k -> closed_keys iso t ->
   table_walk_through t lam k r q sq iso cs = Ok (Some (t', l')) ->
   map fst t' = map fst t /\
   (in_range k q -> Forall (in_range k) (map snd t) -> Forall (in_range k) (map snd t')) /\
@@ -1008,10 +1027,10 @@ Lemma twt_preserves : forall t lam k r q sq iso cs t' l', 2 <= k -> map fst t = 
 Proof.
   intros t lam k r q sq iso cs t' l' Hk WF H.
   destruct (twt_result _ _ _ _ _ _ _ _ _ _ Hk WF H) as (_ & (H1 & H2 & H3 & H4) & _).
-  split; [congruence|]. split; auto.
+  split; [exact H1|]. split; auto.
 Qed.
 
-Lemma twt_monotone : forall t lam k r q sq iso cs t' l', 2 <= k -> map fst t = states k (2 * r + 1) ->
+Lemma twt_monotone : forall t lam k r q sq iso cs t' l', 2 <= k -> closed_keys iso t ->
   table_walk_through t lam k r q sq iso cs = Ok (Some (t', l')) ->
   ((lam <= actual_lambda k r q t)%Q ->
      qcount q t <= qcount q t' /\ (actual_lambda k r q t' <= actual_lambda k r q t)%Q) /\
@@ -1037,12 +1056,11 @@ Proof.
 Qed.
 
 (* every single perturbation moves the quiescent count strictly in the loop's direction *)
-Lemma twt_step_monotone : forall (t : table) k r q sq iso cs t' cs', 2 <= k -> map fst t = states k (2 * r + 1) ->
+Lemma twt_step_monotone : forall (t : table) k q sq iso cs t' cs', NoDup (map fst t) ->
   (dec_body q sq iso t cs = Ok (Cont t' cs') -> qcount q t < qcount q t') /\
   (inc_body k q sq iso t cs = Ok (Cont t' cs') -> qcount q t' < qcount q t).
 Proof.
-  intros t k r q sq iso cs t' cs' Hk WF.
-  assert (ND : NoDup (map fst t)) by (rewrite WF; apply states_NoDup; lia).
+  intros t k q sq iso cs t' cs' ND.
   split; intros B.
   - destruct (dec_body_cont _ _ _ _ _ _ _ B) as [s [Hin ->]].
     destruct (adm_dec_in q sq t s ND Hin) as (v0 & Hl & Hne & _).
@@ -1053,7 +1071,7 @@ Proof.
     pose proof (qcount_perturb_inc q iso s v t Hl Hvq). lia.
 Qed.
 
-Lemma twt_stop : forall t lam k r q sq iso cs t' l', 2 <= k -> map fst t = states k (2 * r + 1) ->
+Lemma twt_stop : forall t lam k r q sq iso cs t' l', 2 <= k -> closed_keys iso t ->
   table_walk_through t lam k r q sq iso cs = Ok (Some (t', l')) ->
   ((actual_lambda k r q t == lam)%Q -> t' = t) /\
   ((lam < actual_lambda k r q t)%Q ->
@@ -1137,3 +1155,107 @@ Proof.
   unfold table_rule. rewrite state_repr_digits, Hv; auto.
   destruct Hnb as [_ Hd]. eapply Forall_impl; [|exact Hd]. simpl. intros; lia.
 Qed.
+
+(* ================================================================== walk-through: full key SET in any order *)
+(* The versions quoted by Properties/C17.v: the table's keys are distinct and are exactly the k-colour
+   strings of length 2r+1, in ANY order (the lemmas above need even less: closed_keys). *)
+Section FullKeys.
+  Variables (t : table) (lam : Q) (k r : nat) (q : Z) (sq iso : bool) (cs : list nat).
+  Hypothesis Hk : 2 <= k.
+  Hypothesis ND : NoDup (map fst t).
+  Hypothesis FK : forall s, In s (map fst t) <-> (length s = 2 * r + 1 /\ Forall (fun d => d < k) s).
+
+  Lemma FK_closed : closed_keys iso t.
+  Proof. apply (full_keys_closed k (2 * r + 1)). split; auto. Qed.
+
+  Lemma twt_terminates_full : exists t' l', table_walk_through t lam k r q sq iso cs = Ok (Some (t', l')).
+  Proof. apply twt_terminates; auto. apply FK_closed. Qed.
+
+  Lemma twt_preserves_full : forall t' l',
+    table_walk_through t lam k r q sq iso cs = Ok (Some (t', l')) ->
+    map fst t' = map fst t /\
+    (in_range k q -> Forall (in_range k) (map snd t) -> Forall (in_range k) (map snd t')) /\
+    (sq = true -> SQ t -> SQ t') /\
+    (iso = true -> ISO t -> ISO t').
+  Proof. intros t' l'. apply twt_preserves; auto. apply FK_closed. Qed.
+
+  Lemma twt_monotone_full : forall t' l',
+    table_walk_through t lam k r q sq iso cs = Ok (Some (t', l')) ->
+    ((lam <= actual_lambda k r q t)%Q ->
+       qcount q t <= qcount q t' /\ (actual_lambda k r q t' <= actual_lambda k r q t)%Q) /\
+    ((actual_lambda k r q t <= lam)%Q ->
+       qcount q t' <= qcount q t /\ (actual_lambda k r q t <= actual_lambda k r q t')%Q).
+  Proof. intros t' l'. apply twt_monotone; auto. apply FK_closed. Qed.
+
+  Lemma twt_stop_full : forall t' l',
+    table_walk_through t lam k r q sq iso cs = Ok (Some (t', l')) ->
+    ((actual_lambda k r q t == lam)%Q -> t' = t) /\
+    ((lam < actual_lambda k r q t)%Q ->
+       ((actual_lambda k r q t' <= lam)%Q \/ adm_dec q sq t' = []) /\
+       (t' = t \/ exists tp cs0 cs1, (lam < actual_lambda k r q tp)%Q /\ dec_body q sq iso tp cs0 = Ok (Cont t' cs1))) /\
+    ((actual_lambda k r q t < lam)%Q ->
+       ((lam <= actual_lambda k r q t')%Q \/ adm_inc q sq t' = []) /\
+       (t' = t \/ exists tp cs0 cs1, (actual_lambda k r q tp < lam)%Q /\ inc_body k q sq iso tp cs0 = Ok (Cont t' cs1))).
+  Proof. intros t' l'. apply twt_stop; auto. apply FK_closed. Qed.
+End FullKeys.
+
+(* the canonical order of random_rule_table is one instance *)
+Lemma states_full_keys : forall k r (t : table), 2 <= k -> map fst t = states k (2 * r + 1) ->
+  NoDup (map fst t) /\ (forall s, In s (map fst t) <-> (length s = 2 * r + 1 /\ Forall (fun d => d < k) s)).
+Proof. intros k r t Hk H. apply (canonical_full_keys k (2 * r + 1) t); auto. lia. Qed.
+
+Lemma canonical_closed : forall k r iso (t : table), 2 <= k -> map fst t = states k (2 * r + 1) -> closed_keys iso t.
+Proof. intros k r iso t Hk H. apply (full_keys_closed k (2 * r + 1)). apply canonical_full_keys; auto. lia. Qed.
+
+(* canonical-order corollaries (the statements of the first version of Properties/C17.v) *)
+Lemma twt_terminates_canonical : forall t lam k r q sq iso cs, 2 <= k -> map fst t = states k (2 * r + 1) ->
+  exists t' l', table_walk_through t lam k r q sq iso cs = Ok (Some (t', l')).
+Proof. intros. apply twt_terminates; auto. eapply canonical_closed; eauto. Qed.
+
+Lemma twt_preserves_canonical : forall t lam k r q sq iso cs t' l', 2 <= k -> map fst t = states k (2 * r + 1) ->
+  table_walk_through t lam k r q sq iso cs = Ok (Some (t', l')) ->
+  map fst t' = states k (2 * r + 1) /\
+  (in_range k q -> Forall (in_range k) (map snd t) -> Forall (in_range k) (map snd t')) /\
+  (sq = true -> SQ t -> SQ t') /\ (iso = true -> ISO t -> ISO t').
+Proof.
+  intros t lam k r q sq iso cs t' l' Hk WF H.
+  destruct (twt_preserves t lam k r q sq iso cs t' l' Hk (canonical_closed k r iso t Hk WF) H) as (H1 & H2).
+  split; [congruence | exact H2].
+Qed.
+
+(* ================================================================== doubles and rationals *)
+(* The code compares the DOUBLE fl((K - c)/K) with the DOUBLE target x; the model compares the rational
+   (K - c)/K with a rational lam.  For any rounding fl that is monotone and fixes the doubles, the two
+   comparisons agree when lam is read off the double x as follows:
+     - x is not the double of the grid point a:  lam := the exact value of x     (reading_offgrid)
+     - x = fl(b) for a grid point b = c0/K:      lam := b, provided fl is strictly monotone on the two grid
+       points compared (true for K < 2^52: neighbouring grid points are 1/K > 1 ulp apart)   (reading_ongrid)
+   Python's int / int is correctly rounded, so fl((K-c)/K) IS the double the code holds; it is exact
+   (fl a == a) iff K is a power of two. *)
+Section DoubleReading.
+  Variable fl : Q -> Q.
+  Hypothesis fl_mono : forall a b, (a <= b)%Q -> (fl a <= fl b)%Q.
+
+  Lemma reading_offgrid : forall a x, (fl x == x)%Q -> ~ (fl a == x)%Q -> (a ?= x)%Q = (fl a ?= x)%Q.
+  Proof.
+    intros a x Hx Hne.
+    destruct (Q_dec (fl a) x) as [[Hl|Hg]|He]; [| |contradiction].
+    - assert (Ha : (a < x)%Q).
+      { apply Qnot_le_lt. intros Hle. apply fl_mono in Hle. rewrite Hx in Hle. apply (Qlt_not_le _ _ Hl); auto. }
+      apply Qlt_alt in Ha. apply Qlt_alt in Hl. unfold Qcompare in *. congruence.
+    - assert (Ha : (x < a)%Q).
+      { apply Qnot_le_lt. intros Hle. apply fl_mono in Hle. rewrite Hx in Hle. apply (Qlt_not_le _ _ Hg); auto. }
+      apply Qgt_alt in Ha. apply Qgt_alt in Hg. unfold Qcompare in *. congruence.
+  Qed.
+
+  Lemma reading_ongrid : forall a b,
+    ((a < b)%Q -> (fl a < fl b)%Q) -> ((b < a)%Q -> (fl b < fl a)%Q) -> (forall c d, (c == d)%Q -> (fl c == fl d)%Q) ->
+    (a ?= b)%Q = (fl a ?= fl b)%Q.
+  Proof.
+    intros a b H1 H2 Hc.
+    destruct (Q_dec a b) as [[Hl|Hg]|He].
+    - pose proof (H1 Hl) as Hf. apply Qlt_alt in Hl. apply Qlt_alt in Hf. unfold Qcompare in *. congruence.
+    - pose proof (H2 Hg) as Hf. apply Qgt_alt in Hg. apply Qgt_alt in Hf. unfold Qcompare in *. congruence.
+    - pose proof (Hc _ _ He) as Hf. apply Qeq_alt in He. apply Qeq_alt in Hf. unfold Qcompare in *. congruence.
+  Qed.
+End DoubleReading.
